@@ -77,6 +77,10 @@ def request_bytes(r):
         return ("GET %s HTTP/1.1\r\nHost: t\r\nX-K: %d\r\nConnection: close\r\n%s\r\n" % (path, k, extra)).encode(), b""
     if kind == "http10":
         return ("GET %s HTTP/1.0\r\nHost: t\r\nX-K: %d\r\n%s\r\n" % (path, k, extra)).encode(), b""
+    if kind == "te10":
+        # HTTP/1.0 keep-alive with a Transfer-Encoding header (no body follows): framing after which the connection
+        # must be closed
+        return ("GET %s HTTP/1.0\r\nHost: t\r\nX-K: %d\r\nConnection: keep-alive\r\nTransfer-Encoding: chunked\r\n%s\r\n" % (path, k, extra)).encode(), b""
     if kind == "http10_ka":
         return ("GET %s HTTP/1.0\r\nHost: t\r\nX-K: %d\r\nConnection: keep-alive\r\n%s\r\n" % (path, k, extra)).encode(), b""
     if kind == "bad":
@@ -92,7 +96,7 @@ def request_bytes(r):
 
 METHOD = {"plain": "GET", "head": "HEAD", "body": "POST", "chunked": "POST", "expect": "POST",
           "expect_nobody": "GET", "expect10": "POST", "close": "GET", "http10": "GET", "http10_ka": "GET",
-          "bad": "GET", "toolarge": "POST", "garbage": "GET", "partial": "GET"}
+          "bad": "GET", "toolarge": "POST", "garbage": "GET", "partial": "GET", "te10": "GET"}
 
 
 class AppIter:
@@ -343,6 +347,10 @@ class Ctx:
                 S.vo("client", "read", enabled=lambda: sk.blocked >= act[1] or sk.closed)
                 if sk.room is not None:
                     sk.room += act[2]
+            elif op == "oob":
+                # one byte of urgent data: the descriptor shows up in select's exceptional set / as POLLPRI
+                S.vo("client", "oob")
+                sk.oob = True
             elif op == "eof":
                 S.vo("client", "eof")
                 sk.eof = True
@@ -400,7 +408,14 @@ class Ctx:
             if ch is not None and "_wv_requests" not in dd:
                 ch = None  # construction failed: the connection never became a channel
             if ch is not None:
+                # producers parked on this channel's output condition: still queued, or notified but unable to get the
+                # lock back (both are "waiting" as far as the application is concerned)
                 waiting = len(ch.outbuf_lock.waiters)
+                for tn, th in self.S.threads.items():
+                    pend = getattr(th, "pending", None)
+                    if (not getattr(th, "done", False) and pend and pend[0] == "wait" and pend[1] == "outbuf_lock" and tn not in ch.outbuf_lock.waiters
+                            and getattr(ch.outbuf_lock.lock, "owner", None) not in (None, tn)):
+                        waiting += 1
             pre = b"HTTP/1.1 "
             cut_head = bool(rest) and (rest[:9] == pre[:len(rest[:9])]) and b"\r\n\r\n" not in rest
             conns.append({"c": name, "accepted": ch is not None, "resp": resp, "garbage": 0 if cut_head else len(rest),
